@@ -115,7 +115,7 @@ theorem stepJob_mu {s s' : St} {i : Nat} (h : stepJob s i = some s') : mu s' < m
         have := key _ (.done .ok) hjob (by simp [jobRank]); simp only [mu]; omega
       · rename_i hjob
         simp only [Option.some.injEq] at h; subst h
-        have := key _ (.done .ok) hjob (by simp [jobRank]); simp only [mu]; omega
+        have := key _ (.done .ok) hjob (by simp [jobRank]); simp only [mu, List.length_nil]; omega
       · rename_i hjob
         simp only [Option.some.injEq] at h; subst h
         have := key _ .running hjob (by simp [jobRank]); simp only [mu]; omega
@@ -158,7 +158,8 @@ theorem stepPeer_mu {s s' : St} (h : stepPeer s = some s') : mu s' < mu s := by
     split at h
     · simp at h
     · split at h
-      · simp only [Option.some.injEq] at h; subst h; simp only [mu, hp, List.length_cons]; omega
+      · simp only [Option.some.injEq] at h; subst h
+        cases ev <;> simp only [mu, hp, List.length_cons, List.length_nil] <;> omega
       · split at h
         · split at h
           · simp only [Option.some.injEq] at h; subst h; simp only [mu, hp, List.length_cons]; omega
